@@ -88,6 +88,12 @@ def cases(rng, tier):
                 d[rng.choice(gen.AAS)] = t_
         for sq in ("MKRDESTAYKKRRDDEEGWPCFHILNQV", gen.rand_seq(rng, "idp", rng.randint(1, 30))):
             yield Case(["q reduce %s %d %s" % (sq, rng.choice([20, 5, 2]), utok(d))], {"kind": "user-alphabet-image-size-%d" % img_n})
+    # partial user alphabets by number of entries (1, 2, 3, 19 of the 20 residues bound): all must be refused
+    for n_ in (1, 1, 1, 2, 3, 10, 19, 19) * (1 if tier == "quick" else 4):
+        keys = rng.sample(gen.AAS, n_)
+        d = {k: rng.choice(["A", "G", k]) for k in keys}
+        for size in (20, 5):
+            yield Case(["q reduce %s %d %s" % ("MKDEGGSAWYRRLLPQACDEFGHIKLMNPQRSTVWY", size, utok(d))], {"kind": "user-alphabet-%d-entries" % n_})
     # dictionaries with MORE than the 20 keys: an extra key that is itself used as a target / is a valid or invalid symbol
     for sym in ["X", "B", "k", "-", "Z", "1", "AA"]:
         for key in ("G", "S", "K", "W", "A"):
